@@ -127,6 +127,27 @@ def load_job_payload(job: Dict[str, Any], work: Path):
 
                 gens += [Dispatcher(rp.e.config.dispatcher), ChargingFleetManager(rp.e.config.dispatcher)]
         rp = runs.set_generators(rp, gens)
+    if job.get("throttle"):
+        # a co-simulation user has throttled some plugs (station-local charger rates differ from the factory rates)
+        import random as _r
+
+        from returns.result import Failure
+
+        from nrel.hive.state.simulation_state import simulation_state_ops
+
+        rng2 = _r.Random(job.get("seed", 1) + 17)
+        sim = rp.s
+        for sid in sorted(sim.stations.keys()):
+            st = sim.stations[sid]
+            for cid in sorted(st.state.keys()):
+                if rng2.random() < 0.6:
+                    res = st.set_charger_rate(cid, rp.e.chargers[cid].rate * rng2.choice([0.3, 0.45, 0.8]))
+                    if not isinstance(res, Failure):
+                        st = res.unwrap()
+            r2 = simulation_state_ops.modify_station_safe(sim, st)
+            if not isinstance(r2, Failure):
+                sim = r2.unwrap()
+        rp = rp._replace(s=sim)
     if job.get("end_override"):
         # an interval that is not a whole number of steps: the last step is a partial one
         from nrel.hive.model.sim_time import SimTime
